@@ -1,6 +1,6 @@
 (** C05 — Transient storage failures never leave gaps or false acknowledgements. *)
 From Coq Require Import List NArith Bool.
-From LS Require Import Faults.Resumable Faults.Upload Faults.Compact Faults.Behind Faults.Proofs.
+From LS Require Import Faults.Resumable Faults.Upload Faults.Compact Faults.Behind Faults.UProofs Faults.Proofs.
 Import ListNotations.
 Local Open Scope N_scope.
 
@@ -30,6 +30,17 @@ Proof. exact Proofs.l0_gapless. Qed.
 Print Assumptions l0_gapless.
 
 (** A cached (non-zero) position equals the remote max. *)
+(** A snapshot (level 9) is uploaded independently of the level-0 files and may be AHEAD of
+    the replica's level 0; whatever snapshots appear and whenever (in particular right
+    before a fault makes Replica.sync recompute its position), every sync returns the same
+    error class, position and client calls and leaves the same level-0 set as without them
+    ([HSnap] steps change nothing the upload path reads).  Seed C05d: calcPos taking the
+    maximum over levels 0 and 9. *)
+Theorem snapshots_never_move_the_position : forall hs st,
+  hist_run st (filter (fun h => negb (is_snap h)) hs) = hist_run st hs.
+Proof. exact Proofs.snapshots_ignored. Qed.
+Print Assumptions snapshots_never_move_the_position.
+
 Theorem pos_truthful : forall fl st, reach fl st -> u_pos st <> 0 -> u_pos st = maxl (u_remote st).
 Proof. exact Proofs.pos_truthful. Qed.
 Print Assumptions pos_truthful.
